@@ -445,6 +445,29 @@ def run(ctx):
         if ctx.shard == 0:
             for dialect in dl:
                 judge(ctx, t, dialect, None, "equal-operands", unique=False)
+    # signs in front of signed spellings: 1..3 unary minus over literals written with a sign
+    # of their own, zero in all its spellings among them (value 0, text "-0"): the rendering
+    # must never glue two signs into a comment marker
+    signed = [T.lit("int", "-0"), T.lit("int", "-00"), T.lit("int", "+0"), T.lit("int", "0"), T.lit("int", "-5"), T.lit("int", "+5"),
+              T.lit("float", "-0.0"), T.lit("float", "-0e3"), T.lit("float", "-1e-400"), T.lit("float", "+0.0"), T.lit("float", "-2.5"),
+              T.lit("float", "-0.0e-0"), T.lit("int", "-000000000000000000000")]
+    j = 0
+    for lit in signed:
+        for kneg in (1, 2, 3):
+            x = lit
+            for _ in range(kneg):
+                x = ("un", "neg", x)
+            col = T.ident("a_1" if lit[1] == "int" else "f_1")
+            for t in (("cmp", "eq", col, x), ("cmp", "eq", ("bin", "sub", col, x), T.I(5)), ("cmp", "lt", x, col),
+                      ("cmp", "eq", ("bin", "mul", x, col), lit), ("cmp", "eq", ("bin", "sub", x, lit), col),
+                      ("cmp", "in", col, T.lst(T.I(1), lit))):
+                j += 1
+                if not ctx.mine(j):
+                    continue
+                for dialect in dl:
+                    for alias in (None, "tb"):
+                        ctx.cls("signed-literal-under-minus")
+                        judge(ctx, t, dialect, alias, "signed-literal", unique=False)
     # literal spellings outside the ABNF that a lexer built on \d / \w / \s may accept: IF a
     # filter is accepted, its SQL must still be well formed and mirror it
     exotic = [("a", T.lit("int", "\uff15")), ("a", T.lit("int", "-\u0663")), ("a", T.lit("int", "1\u0662")),
